@@ -326,8 +326,8 @@ func (b *BinaryExpression) SQL() string {
 }
 
 // Expression precedence levels used when serialising, mirroring the parser's
-// ladder: OR < AND < NOT < comparison/predicates < || < + - < * / % < JSON
-// operators < unary sign < primary.
+// ladder: OR < AND < NOT < comparison/predicates < || < + - < * / % < unary
+// sign < JSON operators < primary.
 const (
 	precOr = iota + 1
 	precAnd
@@ -336,8 +336,8 @@ const (
 	precConcat
 	precAdditive
 	precMultiplicative
-	precJSON
 	precUnarySign
+	precJSON
 	precPrimary
 )
 
